@@ -58,7 +58,10 @@ def scenarios(tier, seed=0):
     # season numbers that do not line up with simulation years (start after the planting day: the first partial season is dropped) and
     # CO2 options, C3 crops (water productivity adjusted for CO2), several seasons
     for name in (["Wheat", "Potato", "Cotton"] if tier == "quick" else ["Wheat", "Potato", "Cotton", "Soybean", "Barley", "Tomato", "Maize"]):
-        for co2 in (None, {"table": [[1990, 350.0], [2001, 380.0], [2002, 420.0], [2003, 480.0], [2004, 560.0], [2050, 900.0]]}, {"constant_conc": True, "current_concentration": 600.0}):
+        for co2 in (None, {"table": [[1990, 350.0], [2001, 380.0], [2002, 420.0], [2003, 480.0], [2004, 560.0], [2050, 900.0]]}, {"constant_conc": True, "current_concentration": 600.0},
+                    # a plateau: consecutive seasons with exactly the same concentration, different from the first simulated year
+                    {"table": [[1990, 340.0], [2001, 340.0], [2002, 550.0], [2003, 550.0], [2004, 550.0], [2050, 550.0]]},
+                    {"table": [[1990, 700.0], [2001, 700.0], [2002, 400.0], [2010, 400.0]]}):
             for start in ("2001/06/15", "2001/05/01", "2001/03/10"):
                 spec = A.catalogue_spec(name, word="warm", irr="smt", start=start, end="2004/04/20", co2=co2)
                 yield {"kind": "spec", "spec": spec, "label": ["co2-years", name, bool(co2), start]}
